@@ -119,6 +119,9 @@ def run(ctx):
     # the same element in the same storage through a history of other storages (cache / by-name routes)
     hist_pass(ctx)
     registered_pass(ctx)
+    # the same element in different key orders through the by-name routes (wrapper, registered), incl. two-digit keys in d = 5, 6
+    from harness.c09 import collision_search
+    collision_search(ctx)
     ctx.assumptions = ['for the iterative inverse (d >= 6) the loop exit depends on the stored symbolic key set; not covered in the quick tier']
 
 
